@@ -34,7 +34,12 @@ impl<T> ResourceStorage<T> {
 	#[must_use]
 	pub fn new(capacity: usize) -> (Self, ResourceController<T>) {
 		let (new_resource_producer, new_resource_consumer) = RingBuffer::new(capacity);
-		let (unused_resource_producer, unused_resource_consumer) = RingBuffer::new(capacity);
+		// A slot is freed before its resource is pushed to this ring, so the gameplay
+		// thread can reserve the slot and drain the ring while one removed resource
+		// is still in the audio thread's hands. Until the next drain the ring can
+		// therefore receive that resource plus `capacity` more.
+		let (unused_resource_producer, unused_resource_consumer) =
+			RingBuffer::new(capacity + 1);
 		let resources = Arena::new(capacity);
 		let arena_controller = resources.controller();
 		(
@@ -115,7 +120,12 @@ impl<T> SelfReferentialResourceStorage<T> {
 		T: Default,
 	{
 		let (new_resource_producer, new_resource_consumer) = RingBuffer::new(capacity);
-		let (unused_resource_producer, unused_resource_consumer) = RingBuffer::new(capacity);
+		// A slot is freed before its resource is pushed to this ring, so the gameplay
+		// thread can reserve the slot and drain the ring while one removed resource
+		// is still in the audio thread's hands. Until the next drain the ring can
+		// therefore receive that resource plus `capacity` more.
+		let (unused_resource_producer, unused_resource_consumer) =
+			RingBuffer::new(capacity + 1);
 		let resources = Arena::new(capacity);
 		let arena_controller = resources.controller();
 		(
